@@ -30,21 +30,40 @@ def docs(max_leaves=10, max_width=4, leaf=scalars):
 
 
 def mutate(a, D, leaf=scalars):
-    """Strategy for a document derived from `a` by a few structural edits (so prefixes/suffixes, duplicates,
-    different-sized containers and renamed keys arise by construction, not by rejection)."""
+    """Strategy for a document derived from `a` by one to three structural edits applied in sequence (so
+    prefixes/suffixes, duplicates, different-sized containers and several renamed keys in one mapping arise by
+    construction, not by rejection)."""
+    one = mutate_once(a, D, leaf)
+    return st.one_of(
+        one, one,
+        one.flatmap(lambda b: mutate_once(b, D, leaf)),
+        one.flatmap(lambda b: mutate_once(b, D, leaf)).flatmap(lambda c: mutate_once(c, D, leaf)))
+
+
+def _sub_char(k, i):
+    if not k:
+        return 'z'
+    j = i % len(k)
+    return k[:j] + ('z' if k[j] != 'z' else 'y') + k[j + 1:]
+
+
+def mutate_once(a, D, leaf=scalars):
     if isinstance(a, list):
         alts = [st.just(a), D,
                 st.builds(lambda i, y: a[:i % (len(a) + 1)] + [y] + a[i % (len(a) + 1):], st.integers(0, 10), D)]
         if a:
             alts.append(st.builds(lambda i: a[:i % len(a)] + a[(i % len(a)) + 1:], st.integers(0, 10)))
             alts.append(st.builds(lambda i: a[:i % len(a)] + [a[i % len(a)]] + a[i % len(a):], st.integers(0, 10)))
-            alts.append(st.tuples(*[mutate(x, D, leaf) for x in a]).map(list))
+            alts.append(st.tuples(*[mutate_once(x, D, leaf) for x in a]).map(list))
             alts.append(st.permutations(a).map(list))
         return st.one_of(*alts)
     if isinstance(a, dict):
         return st.one_of(
             st.just(a), D,
-            st.fixed_dictionaries({k: mutate(v, D, leaf) for k, v in a.items()}),
+            st.fixed_dictionaries({k: mutate_once(v, D, leaf) for k, v in a.items()}),
+            # same-length rename: one character of one key substituted (a partial string edit of equal length)
+            st.builds(lambda i, j: {(_sub_char(kk, j) if n == i % max(len(a), 1) and _sub_char(kk, j) not in a else kk): vv
+                                    for n, (kk, vv) in enumerate(a.items())}, st.integers(0, 10), st.integers(0, 10)),
             st.builds(lambda k, v: {**a, k: v}, keys, D),
             st.builds(lambda k: {kk: vv for kk, vv in a.items() if kk != k}, keys),
             st.builds(lambda k, k2: {(k2 if kk == k else kk): vv for kk, vv in a.items()}, keys, keys),
@@ -190,6 +209,36 @@ def growing_dict_cases(draw):
     return {'family': 'json', 'a': a, 'b': b, 'ds': ds, 'le': le}
 
 
+# -- lists with several equal container siblings, of which one (often an earlier one) changes -----------------------------
+# (anything keyed by node *equality* - memo tables, dict-built copies, index maps - conflates such siblings)
+
+@st.composite
+def dup_sibling_cases(draw):
+    small = st.one_of(st.integers(0, 9), st.sampled_from(['a', 'ab', 'x']))
+    cont = st.one_of(st.lists(small, min_size=1, max_size=3), st.dictionaries(keys, small, min_size=1, max_size=2),
+                     st.lists(st.lists(small, min_size=1, max_size=2), min_size=1, max_size=2))
+    c = draw(cont)
+    n = draw(st.integers(2, 3))
+    a = [c] * n
+    extra = draw(st.lists(st.one_of(small, cont), max_size=2))
+    pos = draw(st.integers(0, len(a)))
+    a = a[:pos] + extra + a[pos:]
+    b = list(a)
+    idxs = [i for i, x in enumerate(a) if x == c]
+    k = draw(st.integers(1, len(idxs)))
+    for i in idxs[:k] if draw(st.booleans()) else idxs[-k:]:
+        b[i] = draw(mutate_once(c, cont, small))
+    if draw(st.integers(0, 3)) == 0:
+        b = b + [draw(small)]
+    wrap = draw(st.integers(0, 2))
+    if wrap == 1:
+        a, b = {'k1': a}, {'k1': b}
+    elif wrap == 2:
+        a, b = [a, 1], [b, 1]
+    ds, le = draw(options)
+    return {'family': 'json', 'a': a, 'b': b, 'ds': ds, 'le': le}
+
+
 # -- nested lists (the shape C05's quiet-printer crash needs: lists nested >= 3 deep) -------------------------------
 
 def nested_lists(leaf=scalars):
@@ -245,6 +294,10 @@ def mutate_xml(a, D):
             st.builds(lambda t: {**a, 'text': t}, st.sampled_from(TEXTS)),
             st.builds(lambda k, v: {**a, 'attrib': {**a['attrib'], k: v}}, st.sampled_from(ATTR_KEYS), st.sampled_from(['', '1', 'z'])),
             st.builds(lambda k: {**a, 'attrib': {kk: vv for kk, vv in a['attrib'].items() if kk != k}}, st.sampled_from(ATTR_KEYS)),
+            # rename one attribute (value kept): 'id' -> 'ids', 'name' -> 'k' ...
+            st.builds(lambda i, k2: {**a, 'attrib': {((k2 if k2 not in a['attrib'] else kk) if n == i % max(len(a['attrib']), 1) else kk): vv
+                                                     for n, (kk, vv) in enumerate(a['attrib'].items())}},
+                      st.integers(0, 5), st.sampled_from(ATTR_KEYS + ['ids', 'names', 'kk'])),
             st.builds(lambda i, c: {**a, 'children': a['children'][:i % (len(a['children']) + 1)] + [c] + a['children'][i % (len(a['children']) + 1):]},
                       st.integers(0, 5), D)]
     cs = a['children']
@@ -339,9 +392,44 @@ def write_csv(rows, path):
             w.writerow(r)
 
 
+def expand(doc):
+    """{'__repeat__': [s, n]} stands for the string s * n (keeps cases with very long strings small on disk)"""
+    if isinstance(doc, dict):
+        if set(doc) == {'__repeat__'}:
+            return doc['__repeat__'][0] * doc['__repeat__'][1]
+        return {k: expand(v) for k, v in doc.items()}
+    if isinstance(doc, list):
+        return [expand(x) for x in doc]
+    return doc
+
+
+@st.composite
+def huge_leaf_cases(draw):
+    """lists in which a few very long strings (20-40 thousand characters) are inserted or removed: total costs pass 2**16
+    while every single sub-edit stays cheap to compute (the long strings meet only short ones or nothing)"""
+    small = st.one_of(st.integers(0, 9), st.sampled_from(['x', 'y', 'ab']))
+    base = draw(st.lists(small, min_size=0, max_size=3))
+    k = draw(st.integers(2, 4))
+    longs = [{'__repeat__': [draw(st.sampled_from(['a', 'b', 'xy'])), draw(st.integers(20000, 40000))]} for _ in range(k)]
+    # the long strings form one contiguous block between an equal prefix and an equal suffix, so that after the shared
+    # prefix/suffix is trimmed they are only removed or inserted (a long string edited against a short one is legal but
+    # takes minutes: the per-character heap work is quadratic)
+    i = draw(st.integers(0, len(base)))
+    big = base[:i] + longs + base[i:]
+    other = list(base)
+    a, b = (big, other) if draw(st.booleans()) else (other, big)
+    wrap = draw(st.integers(0, 2))
+    if wrap == 1:
+        a, b = {'k1': a, 'a': 1}, {'k1': b, 'a': 1}
+    elif wrap == 2:
+        a, b = {'k1': a}, {'k2': b}
+    ds = draw(st.sampled_from(common.DS))
+    return {'family': 'json', 'a': a, 'b': b, 'ds': ds, 'le': 'on'}      # positional pairing would edit long against short strings
+
+
 def build(case, which, opts=None):
     """Builds the graphtage tree for case['a'] or case['b'] through the public builder of the case's family."""
-    doc = case[which]
+    doc = expand(case[which])
     if opts is None:
         opts = common.build_options(case.get('ds', 'auto'), case.get('le', 'on'))
     fam = case.get('family', 'json')
@@ -378,7 +466,7 @@ def build(case, which, opts=None):
 
 def expected_plain(case, which):
     """The plain document (with MS / XML markers) the tree of case[which] must represent."""
-    doc = case[which]
+    doc = expand(case[which])
     fam = case.get('family', 'json')
     if fam == 'multiset':
         def ms(d):
